@@ -361,7 +361,7 @@ def expired (ts : Nat) (nowSec : Int) (nowNsec : Nat) : Bool :=
   let n := nowSec + (Gen.UnixToInternal : Nat)
   decide (s < n) || (decide (s = n) && decide (0 < nowNsec))
 
-def discVersion : Nat := 4
+def discVersion : Nat := Gen.DiscVersion
 
 inductive POut where
   | reject (r : DReason)
